@@ -50,6 +50,13 @@ CLAIMED = {
         "to exact maxima with unwinding assertions. Not a proof of _extend.",
    note="Trusted: container stubs (std::vector/valarray/slice/upper_bound/copy per the standard), ghost prime table (re-checked every run), CBMC. Known finding C33_ITER_STALE_INDEX (read past size() after the shared cache was cleared) is reported as KNOWN-FINDING.",
    tech="contract-based deductive verification with CBMC on mechanically extracted function text: operations checked against the callee contract of _extend from an arbitrary invariant state (invariant induction over histories); bounded model checking (--unwindset + unwinding assertions) as the stand-in for _extend's own contract"),
+ "C38": dict(cat="model_checking", design="§4 C38",
+   text="BOUNDED stand-in (not a proof): the real generate_fdiff_weights_vector text is executed symbolically by CBMC over the field abstraction GF(p) for every grid "
+        "of pairwise distinct points and every centre (quick: 3 and 4 points over GF(5), 4 points over GF(7), max_deriv 2; thorough: up to 6 points over GF(7), max_deriv 3): "
+        "the weights of order k applied to every monomial (x-c)^m, m < grid size, give k! if m = k and 0 otherwise (the property statement on a basis of the polynomials of "
+        "degree below the grid size); result size; every index in range; every weight set; no division by zero on a distinct grid. Loops unwound to their exact maxima with unwinding assertions.",
+   note="Trusted: field prelude (symengine's exact add/sub/mul/div implement a field; an identity of rational functions over Q holds over GF(p) where no division by zero occurs), vec_basic stub, extraction rules, CBMC.",
+   tech="contract-based verification with CBMC on mechanically extracted function text: pre/postcondition harness over a finite-field abstraction of the exact numbers; bounded model checking (grid size, field, unwinding assertions) — bounded stand-in"),
  "C34": dict(cat="proof", design="§4 C34",
    text="Contract proof (CBMC, loop-free, full domain) on the real text of tribool.h (Kleene and/or/not/andwk/orwk, conversions: soundness of every combination "
         "of sound answers) and of the Number/Constant/Infty/NaN rules of the Zero/Positive/Negative/NonPositive/NonNegative/Real/Complex/Rational/Integer/Finite "
@@ -104,7 +111,7 @@ NA = {
  "C46": "Contejean-Devie is a stack-driven search whose termination and completeness are a mathematical theorem over unbounded integer vectors; the body is std::vector<DenseMatrix>/vector<vector<bool>> C++ and no unwinding bound closes the while loop.",
 }
 # claimed-in-design but not yet built: listed as not applicable *for now* with that reason, replaced as they are built
-PENDING = {'C17': 'claimed in DESIGN.md §4 but its check is not built yet in this commit; not claimed until bin/check C17 exists', 'C20': 'claimed in DESIGN.md §4 but its check is not built yet in this commit; not claimed until bin/check C20 exists', 'C24': 'claimed in DESIGN.md §4 but its check is not built yet in this commit; not claimed until bin/check C24 exists', 'C38': 'claimed in DESIGN.md §4 but its check is not built yet in this commit; not claimed until bin/check C38 exists'}
+PENDING = {'C17': 'claimed in DESIGN.md §4 but its check is not built yet in this commit; not claimed until bin/check C17 exists', 'C20': 'claimed in DESIGN.md §4 but its check is not built yet in this commit; not claimed until bin/check C20 exists', 'C24': 'claimed in DESIGN.md §4 but its check is not built yet in this commit; not claimed until bin/check C24 exists'}
 
 def main():
     ids = [json.loads(l)["id"] for l in open(os.path.join(V, "properties.jsonl"))]
